@@ -37,7 +37,7 @@ PURE_UNINTERPRETED = {
     "std", "exp", "log", "array_equal", "ones_like", "round", "sign", "union1d", "bincount", "isin", "flip",
     "transpose", "ravel", "atleast_1d", "broadcast_to", "searchsorted_unsorted", "histogram", "allclose",
     "percentile", "nanmin", "nanmax", "nanmean", "count_nonzero", "logical_and", "logical_or", "logical_not",
-    "array_split", "vstack", "hstack", "column_stack", "tile", "outer", "dot", "prod", "nanpercentile",
+    "array_split", "vstack", "hstack", "column_stack", "dstack", "row_stack", "tile", "outer", "dot", "prod", "nanpercentile",
     "lexsort", "partition", "argpartition", "digitize", "meshgrid", "full", "eye", "identity", "triu", "tril",
     "issubdtype", "finfo", "iinfo", "result_type", "promote_types", "can_cast", "spacing", "rint", "trunc", "fix", "isinf", "isposinf", "isneginf",
 }
